@@ -42,7 +42,7 @@ def run(module: str, cfg: str | None = None, *, workers: int | str = "auto", env
     meta.mkdir(parents=True, exist_ok=True)
     cfg = cfg or f"{module}.cfg"
     # ParallelGC costs 2-3x wall time in this VM (futex contention); SerialGC is the fastest here
-    jopts = [f"-Xmx{heap}", "-XX:+UseSerialGC", "-XX:-UsePerfData"]
+    jopts = [f"-Xmx{heap}", "-Xss256m", "-XX:+UseSerialGC", "-XX:-UsePerfData"]   # deep RECURSIVE operators (linear folds over traces)
     if dfs:
         jopts.append("-Dtlc2.tool.queue.IStateQueue=StateDeque")
     cmd = ["java", *jopts, "-cp", JAR, "tlc2.TLC", "-config", cfg, "-metadir", str(meta),
